@@ -13,7 +13,7 @@ def coef_scale(c):
 
 def run(tier, replay=None):
     res = Result(PID, tier, LEVEL)
-    res.cov["rule"] = ("proof obligation: Properties_C06.v (the API-level screen removes additive terms only). Measured on the implementation, same build, same input: "
+    res.cov["rule"] = ("proof obligations: Properties_C06.v (screens remove additive terms only; the primitive estimate is evaluated at the stationary point of the envelope). Correspondence: the extracted model of the primitive estimate vs RadialIntegral::estimate_type2 on random, near-centre and decision-region tuples (1e-11). Measured on the implementation, same build, same input: "
                        "every screen active vs every screen bypassed (hooks), |on - off| <= 1e-9 x prod sum|c|, for shell pairs biased to the screening boundary "
                        "(distances 4..40 bohr, tight exponents, small coefficients, high l, diffuse shells near the centre, tight shells far from the centre against diffuse high-l partners) and for integrator matrices of stretched "
                        "systems; a deviation is re-evaluated with ONE site bypassed at a time and attributed to a recorded finding only if bypassing that site alone removes it")
@@ -75,6 +75,37 @@ def run(tier, replay=None):
         cases.append({"id": "s%d" % k, "extra": {"kind": kind}, "shells": [sa, sb], "ecps": [u]})
     tmp = scratch_dir()
     try:
+        # ---- the primitive estimate itself: extracted model (Radial/EstimateModel.v) vs RadialIntegral::estimate_type2
+        tup = []
+        def tadd(tag, N, l1, l2, n_, a_, b_, A_, B_):
+            tup.append("%s%d %d %d %d %s %s %s %s %s" % (tag, len(tup), N, l1, l2, hexf(n_), hexf(a_), hexf(b_), hexf(A_), hexf(B_)))
+        for k in range(400 if tier == "quick" else 6000):
+            tadd("r", rng.randint(0, 12), rng.randint(0, 10), rng.randint(0, 10), rng.loguniform(0.03, 50), rng.loguniform(0.005, 500), rng.loguniform(0.005, 500), rng.loguniform(1e-6, 30), rng.loguniform(1e-6, 30))
+        for k in range(150 if tier == "quick" else 2000):
+            # both centres a hair off the ECP, diffuse primitives, power of r above the Bessel orders: the stationary point lies beyond both centres
+            l1 = rng.randint(0, 3); l2 = rng.randint(0, 3)
+            tadd("c", l1 + l2 + rng.randint(1, 6), l1, l2, rng.loguniform(0.03, 2), rng.loguniform(0.01, 0.1), rng.loguniform(0.01, 0.1), rng.loguniform(1e-6, 1e-2), rng.loguniform(1e-6, 1e-2))
+        for k in range(150 if tier == "quick" else 2000):
+            # decision region: estimates within a few decades of the 1e-15 threshold
+            l1 = rng.randint(0, 8); l2 = rng.randint(0, 8)
+            tadd("d", rng.randint(0, 12), l1, l2, rng.loguniform(0.05, 5), rng.loguniform(0.2, 5), rng.loguniform(0.2, 5), rng.uniform(3, 9), rng.uniform(3, 9))
+        tf = os.path.join(tmp, "tuples.txt"); open(tf, "w").write("\n".join(tup) + "\n")
+        eexe = compile_driver("drv_est.cpp", "rel"); ef = os.path.join(tmp, "est.txt")
+        rc, o = sh([eexe, tf, ef], check=False, timeout=3600)
+        if rc != 0:
+            raise RuntimeError("drv_est failed: " + o[-1500:])
+        rc, eo = sh([os.path.join(OCAML, "drv_est"), ef, "1e-11"], check=False, timeout=3600)
+        es = [l for l in eo.splitlines() if l.startswith("SUMMARY")]
+        if rc != 0 or not es:
+            raise RuntimeError("drv_est (model) failed: " + eo[-1500:])
+        ekv = dict(x.split("=") for x in es[0].split()[1:])
+        res.cov["primitive_estimates_compared"] = int(ekv["compared"]); res.cov["primitive_estimates_below_threshold"] = int(ekv["below_threshold"])
+        emis = [l for l in eo.splitlines() if l.startswith("MISMATCH")]
+        tby = {t.split()[0]: t for t in tup}
+        for l in emis[:2]:
+            tid = l.split()[1]
+            res.violation("estimate-" + tid, {"theorem_or_correspondence": "Radial/EstimateModel.prim_estimate (extracted) = RadialIntegral::estimate_type2 (1e-11 relative): the screening estimate is the recorded formula",
+                                              "input": {"tuple(id N l1 l2 n a b A B)": tby.get(tid)}, "observed": l, "n": int(ekv["mismatches"])})
         blocks, _ = pair_k.run_pairs(cases, tmp)
         active = set(k.get("id") for k in load_known() if k.get("status") == "known")
         viol = []; known = []; nscreened = 0; worst = 0.0
